@@ -81,6 +81,15 @@ ROWS = [
 ]
 
 
+ROWS += [
+    ("C18", "known", None, "K4",
+     "surgery-join-rounding-boundary-pair-not-merged/join/" + cls,
+     "Mesh.__add__ merges vertices by equality after round(decimals=8): two coincident vertices whose coordinate sits on a rounding boundary (e.g. the midpoint x.xxxxxxxx5 of two already rounded coordinates, reached through two arithmetic paths one ulp apart) round to different values and stay unmerged - a crack along the interface. History: (a + b).refined() + translated copy. Found once in 60000 thorough runs")
+    for cls in ("MeshLine1", "MeshTri1", "MeshQuad1", "MeshTet1", "MeshHex1",
+                "MeshWedge1")
+]
+
+
 def main():
     log = subprocess.check_output(
         ["git", "-C", "/repo", "log", "--format=%H %s"], text=True).splitlines()
